@@ -34,6 +34,7 @@ def check(ck):
     r06_3(ck)
     r06_4(ck)
     r06_5(ck)
+    r06_6(ck)
 
 
 # ------------------------------------------------------------- case tables
@@ -499,6 +500,14 @@ def r06_5(ck):
                       for x in ast.walk(v))
         ok = (not has_add) or (isinstance(v, ast.Call) and A.call_name(v)
                                == 'normalize_path')
+        based = 'outer' in A.names_in(v) or 'inner' in A.names_in(v)
+        ck.require(based, 'R06.5', f, d.stmt,
+                   'the target path is composed from the place the update '
+                   'is relative to (outer)',
+                   'a target path is built without `outer`: the reader '
+                   'resolves the same topology entry relative to the '
+                   "process's parent, so the port would write to a "
+                   'different node than it reads', d.stmt)
         ck.require(ok, 'R06.5', f, d.stmt,
                    'composed target path goes through normalize_path',
                    'a target path is composed without normalize_path: ".." '
@@ -531,3 +540,23 @@ def r06_5(ck):
     ck.require(ok, 'R06.5', np_, np_.node.name,
                "normalize_path drops the previous step on '..'",
                "normalize_path no longer resolves '..'")
+
+
+def r06_6(ck):
+    ck.rule('R06.6', 'a port keeps reading the node it writes after '
+            'structural changes: views are marked expired by every '
+            'structural operation, the flag is propagated and the views '
+            'are rebuilt before the next invocation, per batch and per '
+            'step layer (shared with C07 R07.1/R07.2 and C05 R05.3)')
+    from . import c05, c07
+    c07.r07_1(ck)
+    c07.r07_2(ck)
+    c05.r05_3(ck)
+    for o in ck.obligations:
+        if o['rule'] in ('R07.1', 'R07.2', 'R05.3'):
+            o['rule'] = 'R06.6'
+    for v in ck.violations:
+        if v.rule in ('R07.1', 'R07.2', 'R05.3'):
+            v.rule = 'R06.6'
+    for r in ('R07.1', 'R07.2', 'R05.3'):
+        ck.rules.pop(r, None)
